@@ -348,7 +348,7 @@ fn run(ctx: &mut Ctx) {
         }
     }
     let mut rng = ctx.rng(1);
-    let n = ctx.share(ctx.tier.pick(15_000, 200_000));
+    let n = ctx.share(ctx.tier.pick(600_000, 8_000_000));
     for _ in 0..n {
         let (class, template) = POSITIONS[rng.below(POSITIONS.len())];
         let name = random_name(&mut rng);
